@@ -35,7 +35,16 @@ TraceInit ==
     /\ stdoutTail = "none" /\ rc = NoRc /\ wrote = {}
     /\ comp = [c \in SmokeComponents |-> "notrun"]
 
+\* events that carry the errors a component returned
+ComponentEvents == {"ReadSnippets", "CheckImports", "ToSymbolTable", "Phase", "Translate", "TargetVerify",
+                    "TargetGenerate", "Infer", "CsVerify", "CsTypes", "CsVerification"}
+
 Bind ==
+    \/ IsEvent("CheckArgs") /\ CheckArgs
+    \* an enclosing component hands on errors that an inner one has already found (and failed on)
+    \/ /\ Ev.x = "ok" /\ Ev.e \in ComponentEvents /\ failed # "no"
+       /\ Ev.ids # <<>> /\ SetOf(Ev.ids) \subseteq IdsOf(errs)
+       /\ UNCHANGED vars
     \/ IsEvent("ReadSnippets") /\ ReadSnippets(SetOf(Ev.ids))
     \/ IsEvent("LoadModel") /\ LoadModel
     \/ IsEvent("ParsePy") /\ ParsePy(Ev.ok)
@@ -74,6 +83,10 @@ Finished == l > Len(T.events) /\ stage = "Done"
 
 \* C01/C03: the run is a behaviour of the pipeline; in particular no exception leaves a stage
 Inv_TraceAccepted == l > Len(T.events) \/ ENABLED TraceNext
+
+\* C01 speaks about the front end only: once run.load_model has returned a symbol table, what the
+\* generator does with it is C02's business
+Inv_FrontEndTraceAccepted == Inv_TraceAccepted \/ (tool = "main" /\ Obs.load = "accepted")
 
 \* C01: load_model returns exactly one of (symbol table, non-empty error text) ...
 Inv_AcceptedXorReport == Finished /\ Obs.load = "rejected" => ~Obs.loadErrEmpty
